@@ -1,0 +1,206 @@
+//! Verification seams (cargo feature `verif`, off by default).
+//!
+//! Nothing here changes behaviour unless a harness installs callbacks:
+//! - [crash_point] is a no-op until a crash callback is installed.
+//! - [sync::Mutex] / [sync::Condvar] wrap the `std::sync` primitives (so poisoning is exactly std's) and
+//!   report acquire / release / wait / notify to an installed scheduler.
+
+use std::sync::atomic::{AtomicBool, Ordering};
+use std::sync::{Arc, RwLock};
+
+/// Callbacks a deterministic scheduler installs to own every blocking point.
+pub trait SyncHooks: Send + Sync {
+    /// Called before a mutex is acquired. May park the calling thread until the scheduler lets it run.
+    fn before_lock(&self, mutex_id: usize);
+    /// Called right after the mutex has been acquired.
+    fn after_lock(&self, mutex_id: usize);
+    /// Called right after a mutex has been released. Must not block.
+    fn after_unlock(&self, mutex_id: usize);
+    /// Called instead of blocking in `Condvar::wait`, after the mutex has been released.
+    /// Returns when the scheduler decides the thread has been woken up.
+    fn cv_wait(&self, cv_id: usize, mutex_id: usize);
+    /// Called on `Condvar::notify_all` / `notify_one`.
+    fn cv_notify(&self, cv_id: usize);
+}
+
+type CrashCb = dyn Fn(&'static str) + Send + Sync;
+
+static SYNC_ON: AtomicBool = AtomicBool::new(false);
+static CRASH_ON: AtomicBool = AtomicBool::new(false);
+static SYNC_HOOKS: RwLock<Option<Arc<dyn SyncHooks>>> = RwLock::new(None);
+static CRASH_CB: RwLock<Option<Arc<CrashCb>>> = RwLock::new(None);
+
+/// Installs (or removes) the scheduler callbacks.
+pub fn set_sync_hooks(hooks: Option<Arc<dyn SyncHooks>>) {
+    let mut slot = SYNC_HOOKS.write().unwrap_or_else(|e| e.into_inner());
+    SYNC_ON.store(hooks.is_some(), Ordering::SeqCst);
+    *slot = hooks;
+}
+
+/// Installs (or removes) the crash-point callback.
+pub fn set_crash_callback(cb: Option<Arc<CrashCb>>) {
+    let mut slot = CRASH_CB.write().unwrap_or_else(|e| e.into_inner());
+    CRASH_ON.store(cb.is_some(), Ordering::SeqCst);
+    *slot = cb;
+}
+
+fn sync_hooks() -> Option<Arc<dyn SyncHooks>> {
+    if !SYNC_ON.load(Ordering::Relaxed) || std::thread::panicking() {
+        return None;
+    }
+    SYNC_HOOKS
+        .read()
+        .unwrap_or_else(|e| e.into_inner())
+        .as_ref()
+        .cloned()
+}
+
+/// A point where the process may be killed by the harness (the callback unwinds).
+#[inline]
+pub fn crash_point(site: &'static str) {
+    if !CRASH_ON.load(Ordering::Relaxed) || std::thread::panicking() {
+        return;
+    }
+    let cb = CRASH_CB
+        .read()
+        .unwrap_or_else(|e| e.into_inner())
+        .as_ref()
+        .cloned();
+    if let Some(cb) = cb {
+        cb(site)
+    }
+}
+
+pub mod sync {
+    use super::sync_hooks;
+    use std::ops::{Deref, DerefMut};
+    use std::sync::{LockResult, PoisonError};
+
+    /// Drop-in for `std::sync::Mutex` that reports to the installed scheduler.
+    #[derive(Debug, Default)]
+    pub struct Mutex<T> {
+        inner: std::sync::Mutex<T>,
+    }
+
+    /// Drop-in for `std::sync::MutexGuard`.
+    #[derive(Debug)]
+    pub struct MutexGuard<'a, T> {
+        mutex: &'a Mutex<T>,
+        inner: Option<std::sync::MutexGuard<'a, T>>,
+    }
+
+    impl<T> Mutex<T> {
+        pub fn new(t: T) -> Self {
+            Mutex {
+                inner: std::sync::Mutex::new(t),
+            }
+        }
+
+        pub fn id(&self) -> usize {
+            self as *const Self as *const () as usize
+        }
+
+        pub fn lock(&self) -> LockResult<MutexGuard<'_, T>> {
+            let hooks = sync_hooks();
+            if let Some(h) = &hooks {
+                h.before_lock(self.id());
+            }
+            let res = self.inner.lock();
+            if let Some(h) = &hooks {
+                h.after_lock(self.id());
+            }
+            match res {
+                Ok(g) => Ok(MutexGuard {
+                    mutex: self,
+                    inner: Some(g),
+                }),
+                Err(e) => Err(PoisonError::new(MutexGuard {
+                    mutex: self,
+                    inner: Some(e.into_inner()),
+                })),
+            }
+        }
+
+        pub fn is_poisoned(&self) -> bool {
+            self.inner.is_poisoned()
+        }
+    }
+
+    impl<T> Deref for MutexGuard<'_, T> {
+        type Target = T;
+        fn deref(&self) -> &T {
+            self.inner.as_ref().unwrap()
+        }
+    }
+
+    impl<T> DerefMut for MutexGuard<'_, T> {
+        fn deref_mut(&mut self) -> &mut T {
+            self.inner.as_mut().unwrap()
+        }
+    }
+
+    impl<T> Drop for MutexGuard<'_, T> {
+        fn drop(&mut self) {
+            if let Some(g) = self.inner.take() {
+                drop(g);
+                if let Some(h) = sync_hooks() {
+                    h.after_unlock(self.mutex.id());
+                }
+            }
+        }
+    }
+
+    /// Drop-in for `std::sync::Condvar`.
+    #[derive(Debug, Default)]
+    pub struct Condvar {
+        inner: std::sync::Condvar,
+    }
+
+    impl Condvar {
+        pub fn new() -> Self {
+            Condvar {
+                inner: std::sync::Condvar::new(),
+            }
+        }
+
+        pub fn id(&self) -> usize {
+            self as *const Self as *const () as usize
+        }
+
+        pub fn wait<'a, T>(&self, mut guard: MutexGuard<'a, T>) -> LockResult<MutexGuard<'a, T>> {
+            let mutex = guard.mutex;
+            if let Some(h) = sync_hooks() {
+                // Release, let the scheduler decide when we are woken up, then compete for the lock again.
+                drop(guard);
+                h.cv_wait(self.id(), mutex.id());
+                mutex.lock()
+            } else {
+                let g = guard.inner.take().unwrap();
+                match self.inner.wait(g) {
+                    Ok(g) => Ok(MutexGuard {
+                        mutex,
+                        inner: Some(g),
+                    }),
+                    Err(e) => Err(PoisonError::new(MutexGuard {
+                        mutex,
+                        inner: Some(e.into_inner()),
+                    })),
+                }
+            }
+        }
+
+        pub fn notify_all(&self) {
+            if let Some(h) = sync_hooks() {
+                h.cv_notify(self.id());
+            }
+            self.inner.notify_all()
+        }
+
+        pub fn notify_one(&self) {
+            if let Some(h) = sync_hooks() {
+                h.cv_notify(self.id());
+            }
+            self.inner.notify_one()
+        }
+    }
+}
